@@ -836,6 +836,13 @@ func runC16(t *testing.T, spec RunSpec) *Verdict {
 		env.ctx.ResetPolls()
 		m := &c16Model{lines: map[string]int{}}
 		n := 1 + s.Choose(maxLen, "histlen")
+		if pfault > 0 && spec.P("force_op", -1) < 0 && s.Choose(25, "cancel-before-first-call") == 1 {
+			// the host cancels before it ever calls anything: every call is answered with a failure
+			env.ctx.Fire("before the first call")
+			m.failed = true
+			history = append(history, "CANCEL before the first call")
+			s.Fault("cancel-before-first-call")
+		}
 		var prev *c16Op
 		var prevInv *runtime.FunctionInvocation
 		type heldValue struct {
